@@ -40,7 +40,7 @@ type Item struct {
 	CT      string `json:"ct"`      // content type
 	Framing string `json:"framing"` // chunked | cl | close
 	Chunks  []int  `json:"chunks"`
-	PauseMs int    `json:"pause_ms"` // complete: pause between chunks (<= 300)
+	PauseMs int    `json:"pause_ms"` // complete: pause between chunks (<= 400, read timeout 1500)
 	At      int    `json:"at"`       // stall/abort: after this many chunks (0 = right after the headers, -1 = before the headers)
 	// Route: "" = /olla/proxy/; "translated" = a streaming Anthropic request translated for an
 	// OpenAI-compatible backend (only generated for aborts before the backend has answered)
@@ -87,6 +87,15 @@ func genItem(t *rapid.T) Item {
 		it.PauseMs = rapid.SampledFrom([]int{0, 0, 20, 120, 300}).Draw(t, "pause")
 		if len(it.Chunks) > 8 && it.PauseMs > 20 {
 			it.PauseMs = 20
+		}
+		if rapid.IntRange(0, 3).Draw(t, "long") == 0 {
+			// a stream that lasts longer than the read timeout although every pause is well below it
+			n := rapid.IntRange(5, 7).Draw(t, "long-n")
+			it.Chunks = make([]int, n)
+			for i := range it.Chunks {
+				it.Chunks[i] = rapid.IntRange(1, 4096).Draw(t, "long-size")
+			}
+			it.PauseMs = 400
 		}
 	case "stall":
 		it.Chunks = genChunks(t, 6)
@@ -421,6 +430,9 @@ func runCase(c Case) []ev.Violation {
 	rec.Eval(len(c.Items))
 	for _, it := range c.Items {
 		rec.Class("kind=" + it.Kind)
+		if it.Kind == "complete" && time.Duration(it.PauseMs*(len(it.Chunks)-1))*time.Millisecond > readTimeout {
+			rec.Class("complete/lasts-longer-than-read-timeout-with-short-pauses")
+		}
 		nt := (it.Kind == "gate" && len(it.Chunks) >= 3 && streamingExpected(c.Profile, it.CT)) || (it.Kind == "stall" && it.At >= 1) || (it.Kind == "abort" && it.At >= 1)
 		if nt {
 			rec.NT(fmt.Sprintf("%s|%s|%+v", c.Engine, c.Profile, it))
@@ -472,7 +484,7 @@ var _ = strings.Join
 
 func TestC18(t *testing.T) {
 	defer rig.StopAll()
-	rec.SetRule("batches of 4..16 concurrent exchanges through the full stack (engine x proxy profile), each one of: gated stream (the backend sends chunk k+1 only after the client acknowledged chunk k; 1..12 chunks of 1 B..256 KiB), complete stream with pauses <= 300 ms (1..30 chunks), stall after the headers / after k chunks (or before the headers), client abort after k chunks or before the backend has answered (the latter also on the translated Anthropic streaming route); content types SSE, NDJSON, JSON, text, binary; framings chunked, Content-Length, close-delimited; read timeout 1.5 s. A third of the batches (and 8 fixed probes) repeat one exchange n times. After every batch goroutine count and upstream connections must return to the baseline (+2 goroutines slack). non-trivial = gated stream with >=3 chunks in a streaming mode, stall after >=1 chunk, abort mid-body; distinct by (engine, profile, item)")
+	rec.SetRule("batches of 4..16 concurrent exchanges through the full stack (engine x proxy profile), each one of: gated stream (the backend sends chunk k+1 only after the client acknowledged chunk k; 1..12 chunks of 1 B..256 KiB), complete stream with pauses <= 400 ms (1..30 chunks; a quarter of them 5..7 chunks 400 ms apart, so the stream outlasts the 1.5 s read timeout while no pause comes near it), stall after the headers / after k chunks (or before the headers), client abort after k chunks or before the backend has answered (the latter also on the translated Anthropic streaming route); content types SSE, NDJSON, JSON, text, binary; framings chunked, Content-Length, close-delimited; read timeout 1.5 s. A third of the batches (and 8 fixed probes) repeat one exchange n times. After every batch goroutine count and upstream connections must return to the baseline (+2 goroutines slack). non-trivial = gated stream with >=3 chunks in a streaming mode, stall after >=1 chunk, abort mid-body; distinct by (engine, profile, item)")
 	rec.Assume("liveness is judged causally (gates), not by wall clock; time bounds are one-sided: stall ends within read timeout + 5 s while the backend itself only gives up after read timeout + 12 s; cancellation within 5 s; pauses <= 300 ms (a fifth of the timeout) must never be cut")
 	rec.Assume("octet-stream under the auto profile and everything under the standard profile is documented as buffered: only completeness is checked there")
 	if ev.Replay(t, rec, "stream", runCase) {
